@@ -8,4 +8,4 @@ from vlib import auth
 
 def run(ctx):
     auth.run_families(ctx, "c07", auth.FAMILIES_ALL)
-    auth.record_and_validate(ctx, 4000 if ctx.tier == "quick" else 60000)
+    auth.record_and_validate(ctx, 16000 if ctx.tier == "quick" else 60000)
